@@ -92,8 +92,14 @@ impl PivotFinder {
         debug!("pivots: {:?} ..", self.str.shape());
 
         self.find_fl_pivots();
+        #[cfg(yui_verif)]
+        crate::verif::emit(|| crate::verif::Event::PivPhaseDone { phase: 1, count: self.pivots.count() });
         self.find_fl_col_pivots();
+        #[cfg(yui_verif)]
+        crate::verif::emit(|| crate::verif::Event::PivPhaseDone { phase: 2, count: self.pivots.count() });
         self.find_cycle_free_pivots();
+        #[cfg(yui_verif)]
+        crate::verif::emit(|| crate::verif::Event::PivPhaseDone { phase: 3, count: self.pivots.count() });
 
         debug!("pivots: {:?} => {}.", self.str.shape(), self.pivots.count());
     }
@@ -263,7 +269,13 @@ impl PivotFinder {
             loc_pivots.update_from(&pivots.read().unwrap());
             w.init(i, &self.str, &loc_pivots);
 
+            #[cfg(yui_verif)]
+            crate::verif::emit(|| crate::verif::Event::PivTaskStart { row: i, snapshot: loc_pivots.count() });
+
             self.find_cycle_free_pivots_in(&pivots, &mut loc_pivots, &mut w);
+
+            #[cfg(yui_verif)]
+            crate::verif::emit(|| crate::verif::Event::PivTaskEnd { row: i });
 
             if report { 
                 let row_count = row_counter.incr();            
@@ -288,14 +300,21 @@ impl PivotFinder {
             
             // If changes are made in other threads, update `loc_pivots` and retry.
             // Otherwise, modify `pivots` and exit.
+
+            #[cfg(yui_verif)]
+            crate::verif::emit(|| crate::verif::Event::PivBeforeLock { row: w.row, cand: j, snapshot: loc_pivots.count() });
         
             let mut pivots = pivots.write().unwrap();
             w.update_diff(&loc_pivots, &pivots);
             
             if w.should_retry() { 
+                #[cfg(yui_verif)]
+                crate::verif::emit(|| crate::verif::Event::PivRetry { row: w.row, cand: j, snapshot: loc_pivots.count(), global: pivots.count() });
                 loc_pivots.update_from(&pivots);
                 continue
             } else { 
+                #[cfg(yui_verif)]
+                crate::verif::emit(|| crate::verif::Event::PivCommit { row: w.row, col: j, snapshot: loc_pivots.count(), index: pivots.count() });
                 pivots.set(w.row, j);
                 break
             }    
